@@ -58,6 +58,10 @@ CLAIMED = {
          "Machine-checked proof of C06_normalise, C06_network_delivers_8, C06_driver_total, C06_hcu_keeps_working, C06_engine_keeps_working; tied to the code by sweeping every data byte 0..255 on the frames each driver decodes, all inspected parameter groups x source x destination classes x data patterns and random frames through the real try_recv of all eight driver kinds (DLC 0..8 through the real ControlNetwork is exercised by C17).",
          "DLC > 8 cannot occur on classic CAN (excluded by the property). Two genuine defects found and fixed (vecraft status byte, simulator unwrap).",
          "DESIGN.md section 4 C06"),
+ "C09": ("Lean 4 induction over signal histories of the director state (verdict of the latest rotator and of the latest engine signal), thresholds and branch order regenerated from the source, f32 comparisons decided on bit patterns by an integer order key + differential histories through the real Director::wait_io_sub (all 65536 rpm, angle grid x sources)",
+         "Machine-checked proof (C09_history / C09_emergency_iff) that after every processed signal of every history the model emits the full emergency sequence in order iff the latest engine reading exceeds 2200 rpm or the latest rotation reading is an inclinometer reading beyond +45 degrees of roll or pitch, and nothing otherwise; the inclinometer branches are regenerated in source order so a re-ordering or a moved threshold breaks the obligation; tied to the real director fed one signal at a time through real broadcast channels.",
+         "nalgebra's Euler extraction is outside the model (the model is stated on the extracted angles' f32 bit patterns; beyond +-90 degrees of pitch the extraction returns yaw = pi and the code does not classify the reading as tilt). Supervised mode is hard-wired. One genuine defect found and fixed (branch order).",
+         "DESIGN.md section 4 C09"),
 }
 NOT_YET = "check not built yet in this round (planned: Lean model + correspondence, see DESIGN.md section 4)"
 
